@@ -641,6 +641,27 @@ class Interp:
             of[i] = sc.add(of[i], sc.mul(float(J[i, j]) if J[i, j] != int(J[i, j]) else int(J[i, j]), uf[j]))
         return of.reshape(out.shape)
 
+    def p_scatter_mul(self, e, ins):
+        """x.at[idx].multiply(u): the index map is obtained from the primitive itself (ones as operand, distinct
+        integer codes as updates); every target may be hit by at most one update."""
+        op, ind, upd = ins
+        prm = e.params
+        ind = to_numeric(ind, e.invars[1].aval.dtype) if is_obj(ind) else ind
+        dt = np.dtype(e.invars[0].aval.dtype)
+        fdt = np.float64 if not np.issubdtype(dt, np.complexfloating) else np.complex128
+        updl = lift(upd)
+        ones = jnp.ones(np.shape(op), dtype=fdt)
+        cnt = np.asarray(e.primitive.bind(ones, jnp.asarray(ind), 2 * jnp.ones(updl.shape, dtype=fdt), **prm)).real
+        if cnt.max(initial=1) > 2:
+            raise NotEncodable("scatter-mul with repeated target indices")
+        codes = (np.arange(updl.size).reshape(updl.shape) + 2).astype(fdt)
+        moved = np.asarray(e.primitive.bind(ones, jnp.asarray(ind), jnp.asarray(codes), **prm)).real
+        out = lift(op).copy()
+        uf = updl.reshape(-1)
+        for idx in zip(*np.nonzero(moved != 1)):
+            out[idx] = sc.mul(out[idx], uf[int(round(moved[idx])) - 2])
+        return out
+
     # ------------------------------------------------------------------ elementwise
     def _ew1(f):
         return lambda self, e, ins: ew(f, ins[0])
